@@ -1,5 +1,5 @@
 import RsslVerif.Model.CondChain
-import RsslVerif.Spec.CPre
+import RsslVerif.Lemmas.CondExpr
 /-!
 # Lemmas for C11, part 1: the stack automaton refines tree-shaped selection
 
@@ -11,7 +11,7 @@ stack encodes "has a group of this if-section been taken" (`CS.taken`) and the r
 -/
 namespace RsslVerif.Lemmas.CondChain
 open RsslVerif.Gen.CondTables RsslVerif.Model.CondExpr RsslVerif.Model.CondChain
-open RsslVerif.Spec.CPre
+open RsslVerif.Spec.CPre RsslVerif.Lemmas.CondExpr
 
 deriving instance DecidableEq for Except
 
@@ -157,20 +157,6 @@ def taken : CS → Bool
   | _ => true
 
 /-! ### the macro table and text expansion of the model are the reference ones -/
-
-theorem lookup_eq (m : Macros) (n : String) : Macros.lookup m n = Env.lookup m n := by
-  induction m with
-  | nil => rfl
-  | cons e r ih => simp [Macros.lookup, Env.lookup, ih]
-
-theorem isDefined_eq (m : Macros) (n : String) : Macros.isDefined m n = Env.isDefined m n := by
-  induction m with
-  | nil => rfl
-  | cons e r ih =>
-    simp only [Macros.isDefined, Env.isDefined, List.any_cons, Env.lookup] at ih ⊢
-    by_cases h : (e.1 == n) = true
-    · simp [h]
-    · simp only [h, Bool.false_or]; simpa using ih
 
 theorem define_eq (m : Macros) (n b) : Macros.define m n b = Env.define m n b := rfl
 theorem undef_eq (m : Macros) (n) : Macros.undef m n = Env.undef m n := rfl
